@@ -653,6 +653,19 @@ func (g *docGen) fragConds(tn string) []string {
 				break
 			}
 		}
+		// ... and, beneath an object, an interface it does not implement / a union it is no member of
+		if td := g.s.Type(tn); td != nil && td.Kind == hx.KObject {
+			have := map[string]bool{}
+			for _, c := range conds {
+				have[c] = true
+			}
+			for _, other := range g.s.Types {
+				if (other.Kind == hx.KInterface || other.Kind == hx.KUnion) && !have[other.Name] {
+					conds = append(conds, other.Name)
+					break
+				}
+			}
+		}
 	}
 	return conds
 }
